@@ -20,7 +20,7 @@ _VARIANTS_Q = ['stale_id_in_term_init', 'subst_bound_cache_ignores_depth', 'inpl
 TIERS = {
     'quick': dict(fork=False, worlds=16, runs=1500, batch=50, det_runs=16, soft_timeout=300,
                   variants=_VARIANTS_Q, variant_budget=1500, min_tests=120),
-    'thorough': dict(fork=False, worlds=64, runs=4000, batch=40, det_runs=64, soft_timeout=900,
+    'thorough': dict(fork=False, worlds=64, runs=25000, batch=100, det_runs=64, soft_timeout=900,
                      variants=_VARIANTS_Q + ['hash_ignores_type', 'compare_ignores_name', 'subst_cache_no_kind',
                                              'beta_norm_skips_arg', 'incr_wrong_level', 'subst_type_skips_abs'],
                      variant_budget=20000, min_tests=250),
